@@ -840,29 +840,69 @@ def _item_attrs(ix: Any, g: Any, exprs: list[ast.AST], P: set[str], depth: int =
     return out, opaque
 
 
-def _denotes_collection(lc: Locals, e: "ast.AST | None", sources: set[str], depth: int = 4) -> bool:
+def _naming_attrs(ix: Any, g: Any, exprs: list[ast.AST], P: set[str], depth: int = 2) -> set[str]:
+    """the attributes of the item (held under the names P in function g) that give the delivered element its name: those read by what
+    is handed on as `name=` in the expressions the element is computed from - there, or in a function of the module the item is handed
+    to as a whole, in what that function's results are computed from"""
+    out: set[str] = set()
+    lc = Locals(g.node)
+    for e in exprs:
+        for n in ast.walk(e):
+            if isinstance(n, ast.keyword) and n.arg == "name":
+                out |= _item_attrs(ix, g, _closure(lc, n.value, P), P)[0]
+            elif isinstance(n, ast.Call) and depth > 0:
+                whole = [a for a in [*n.args, *[k.value for k in n.keywords]] if isinstance(a, ast.Name) and a.id in P]
+                if not whole:
+                    continue
+                last = call_name(n).rsplit(".", 1)[-1]
+                for h in ix.all_functions:
+                    if h.module is not g.module or h.name != last or h is g:
+                        continue
+                    handed = {p_ for p_ in (a.arg for a in h.params) if any(x is _supplied(n, h, p_) for x in whole)}
+                    if not handed:
+                        continue
+                    lh = Locals(h.node)
+                    results = [r.value for s_ in _stmts_of(h.node) for r in walk_own(s_)
+                               if isinstance(r, (ast.Return, ast.Yield, ast.YieldFrom)) and r.value is not None]
+                    out |= _naming_attrs(ix, h, [x for r in results for x in _closure(lh, r, handed)], handed, depth - 1)
+    return out
+
+
+def _denotes_collection(lc: Locals, e: "ast.AST | None", sources: set[str], depth: int = 4, at: "tuple[Any, Any] | None" = None) -> bool:
     """e is one of the fields `sources`, or stands for one: a local bound to it, an entry of a mapping / an element of a display whose
-    values they are, getattr under one of their names"""
+    values they are, getattr under one of their names, the result of a method of the class / a function of the module (`at` = (index,
+    function e is written in)) that returns such a thing"""
     if e is None or depth < 0:
         return False
     if isinstance(e, ast.Attribute):
         return e.attr in sources
     if isinstance(e, ast.Name):
-        return any(_denotes_collection(lc, v, sources, depth - 1) for v in lc.values_of(e.id))
+        return any(_denotes_collection(lc, v, sources, depth - 1, at) for v in lc.values_of(e.id))
     if isinstance(e, (ast.Subscript, ast.Starred)):
-        return _denotes_collection(lc, e.value, sources, depth)
+        return _denotes_collection(lc, e.value, sources, depth, at)
     if isinstance(e, ast.Dict):
-        return any(_denotes_collection(lc, v, sources, depth) for v in e.values)
+        return any(_denotes_collection(lc, v, sources, depth, at) for v in e.values)
     if isinstance(e, (ast.Tuple, ast.List, ast.Set)):
-        return any(_denotes_collection(lc, v, sources, depth) for v in e.elts)
+        return any(_denotes_collection(lc, v, sources, depth, at) for v in e.elts)
     if isinstance(e, ast.IfExp):
-        return _denotes_collection(lc, e.body, sources, depth) or _denotes_collection(lc, e.orelse, sources, depth)
+        return _denotes_collection(lc, e.body, sources, depth, at) or _denotes_collection(lc, e.orelse, sources, depth, at)
     if isinstance(e, ast.Call):
         if isinstance(e.func, ast.Attribute) and e.func.attr in ("get", "setdefault", "pop", "values", "items"):
-            return _denotes_collection(lc, e.func.value, sources, depth)
+            return _denotes_collection(lc, e.func.value, sources, depth, at)
         if call_name(e) == "getattr" and len(e.args) >= 2:
             pats = _strings_of(e.args[1], lc)
             return pats is None or any(re.fullmatch(p_, f) for p_ in pats for f in sources)
+        if at is not None:
+            # the table of collections may be built by a method / helper: what it returns is what the call stands for
+            ix, g = at
+            last = call_name(e).rsplit(".", 1)[-1]
+            cands = [h for h in ix.all_functions if h.module is g.module and h.name == last and h is not g and
+                     (h.cls is None or g.cls is None or h.cls is g.cls or ix.find_method(g.cls, last) is h)]
+            for h in cands:
+                lh = Locals(h.node)
+                for r in _stmts_of(h.node):
+                    if isinstance(r, ast.Return) and _denotes_collection(lh, r.value, sources, depth - 1, (ix, h)):
+                        return True
     return False
 
 
@@ -898,7 +938,7 @@ def _deliveries(ix: Any, g: Any, sources: set[str], sites: list[tuple[ast.Call, 
                 recv, val = n.target, n.value
             if recv is None:
                 continue
-            if _denotes_collection(lc, recv, sources):
+            if _denotes_collection(lc, recv, sources, at=(ix, g)):
                 out.append((g, st, [recv], [val]))
                 continue
             behind = _closure(lc, recv, params)
@@ -910,7 +950,7 @@ def _deliveries(ix: Any, g: Any, sources: set[str], sites: list[tuple[ast.Call, 
                 env = {p_: e for p_ in params for e in [_supplied(c, g, p_)] if e is not None and e is not _OPAQUE}
                 r_h = [_in_terms_of_caller(e, env) for e in behind]
                 st_h = stmt_of(h.node, c)
-                if st_h is not None and any(_denotes_collection(Locals(h.node), e, sources) for e in r_h):
+                if st_h is not None and any(_denotes_collection(Locals(h.node), e, sources, at=(ix, h)) for e in r_h):
                     out.append((h, st_h, r_h, [_in_terms_of_caller(e, env) for e in _closure(lc, val, params)]))
     return out
 
@@ -974,11 +1014,7 @@ def check_no_silent_loss(rep: Report, ctx: Any, rid: str, sources: set[str]) -> 
             n_fill += 1
             P = _item_names(lc, inner)
             where_to, _ = _item_attrs(ix, g, [x for e in recv for x in _closure(lc, e, P)], P)
-            named: set[str] = set()
-            for e in [x for e in val for x in _closure(lc, e, P)]:
-                for k in ast.walk(e):
-                    if isinstance(k, ast.keyword) and k.arg == "name":
-                        named |= _item_attrs(ix, g, _closure(lc, k.value, P), P)[0]
+            named = _naming_attrs(ix, g, [x for e in val for x in _closure(lc, e, P)], P)
             placed |= where_to
             called |= named
             identity |= where_to | named
